@@ -30,6 +30,7 @@ type modesResult struct {
 	Restart     bool   `json:"restart"`
 	Failing     bool   `json:"failing_jobs"`
 	MaxGapMs    int64  `json:"sibling_max_gap_ms"`
+	Panics      int    `json:"panics"` // panic_then_barrier: executions that panicked before the barrier jobs were scheduled
 }
 
 type inflight struct {
@@ -297,6 +298,57 @@ func runCtxErrThenBarrier(limit, seed int) modesResult {
 	return res
 }
 
+// pool mode: p executions that panic (one after the other, so that each is taken by whichever worker is
+// free), then `limit` jobs due at once: the pool still has `limit` workers, so they all meet at the barrier,
+// and the loop is not stuck in a hand-over
+func runPanicThenBarrier(limit, p, seed int) modesResult {
+	res := modesResult{Kind: "modes", Mode: "pool", Limit: limit, Test: "panic_then_barrier", Bound: limit, Jobs: p + limit, Barrier: limit, Seed: seed, Panics: p, Failing: true}
+	s, _ := quartz.NewStdScheduler(modeOpts("pool", limit)...)
+	var fl inflight
+	var pre, execs atomic.Int64
+	s.Start(context.Background())
+	for i := 0; i < p; i++ {
+		s.ScheduleJob(detail(fmt.Sprintf("pp%d", i), func(ctx context.Context) error {
+			fl.enter()
+			defer fl.exit()
+			pre.Add(1)
+			panic("job panic before the barrier")
+		}), quartz.NewRunOnceTrigger(time.Millisecond))
+		// one at a time; a pool that cannot take the job any more shows below
+		pollUntil(2*time.Second, func() bool { return pre.Load() >= int64(i+1) })
+	}
+	time.Sleep(10 * time.Millisecond)
+	var inside atomic.Int64
+	reached := make(chan struct{})
+	var once sync.Once
+	for i := 0; i < limit; i++ {
+		s.ScheduleJob(detail(fmt.Sprintf("pb%d", i), func(ctx context.Context) error {
+			fl.enter()
+			defer fl.exit()
+			execs.Add(1)
+			if inside.Add(1) >= int64(limit) {
+				once.Do(func() { close(reached) })
+			}
+			defer inside.Add(-1)
+			select {
+			case <-reached:
+			case <-time.After(5 * time.Second):
+			case <-ctx.Done():
+			}
+			return nil
+		}), quartz.NewRunOnceTrigger(time.Millisecond))
+	}
+	select {
+	case <-reached:
+		res.Reached = true
+	case <-time.After(5 * time.Second):
+	}
+	res.WaitOK = stopAndWait(s, 5*time.Second)
+	res.MaxInflight = fl.max.Load()
+	res.Execs = pre.Load() + execs.Load()
+	return res
+}
+
 func cmdModes() {
 	seed := argInt(2, 1)
 	tier := argStr(3, "quick")
@@ -341,5 +393,9 @@ func cmdModes() {
 	run(func() modesResult { return runRetryingIndependent(seed) })
 	run(func() modesResult { return runCtxErrThenBarrier(2, seed) })
 	run(func() modesResult { return runCtxErrThenBarrier(3, seed) })
+	for _, np := range [][2]int{{1, 1}, {2, 1}, {2, 2}, {3, 1}, {3, 2}, {3, 3}, {8, 3}, {8, 8}} {
+		np := np
+		run(func() modesResult { return runPanicThenBarrier(np[0], np[1], seed) })
+	}
 	wg.Wait()
 }
